@@ -12,7 +12,7 @@ use serde::{Deserialize, Serialize};
 use std::panic::{catch_unwind, AssertUnwindSafe};
 use std::time::Instant;
 
-pub const RULE: &str = "cases = accepted connected graphs (E<=8, L<=5, D=1..6), scrambled routing, structured point, plus 1..3 planned single-coordinate perturbations. technique: the sampler is run with a user scalar type that carries, for every value, the set of x-space coordinates (and user edge data) it was computed from; comparisons add to a control-dependence set. asserted per execution: data+control dependencies of l_matrix, u, v, jacobian lie within the first 2E-2 coordinates (+user data) and cover all of them (each xi in the data set, each edge-choice coordinate in the control set); lambda depends on exactly coordinate 2E-2; each Gaussian component on exactly its own pair; the union over all outputs is exactly {0..dim-1}; with 3 extra trailing coordinates none of them is touched and all values are bit-identical; with dim-1 coordinates the call does not return Ok; changing one xi / gamma / Box-Muller coordinate changes the numerical result (edge-choice coordinates: recorded, not asserted, because symmetric graphs may legitimately give the same numbers). non-trivial = E>=3 and (D*L odd or L>=2); distinct = distinct case encodings";
+pub const RULE: &str = "cases = accepted connected graphs (E<=8, L<=5, D=1..6), scrambled routing, structured point, plus 1..3 planned single-coordinate perturbations. technique: the sampler is run with a user scalar type that carries, for every value, the set of x-space coordinates (and user edge data) it was computed from; comparisons add to a control-dependence set. asserted per execution: data+control dependencies of l_matrix, u, v, jacobian lie within the first 2E-2 coordinates (+user data) and cover all of them (each xi in the data set, each edge-choice coordinate in the control set); lambda depends on exactly coordinate 2E-2; each Gaussian component on exactly its own pair; the union over all outputs is exactly {0..dim-1}; with 3 extra trailing coordinates none of them is touched and all values are bit-identical; with dim-1 coordinates the call does not return Ok; changing one xi / gamma / Box-Muller coordinate changes the numerical result (edge-choice coordinates: recorded, not asserted, because symmetric graphs may legitimately give the same numbers); value-level roles in plain f64 with print_debug_info off and on: exact-length point accepted, trailing coordinates ignored bit for bit, short point refused, a changed sector coordinate leaves lambda and all Gaussian components bit-identical, a changed gamma coordinate leaves l_matrix/u/v/jacobian and the Gaussians bit-identical and changes lambda, a changed Box-Muller coordinate changes its own pair only. non-trivial = E>=3 and (D*L odd or L>=2); distinct = distinct case encodings";
 
 #[derive(Clone, Debug, Serialize, Deserialize)]
 pub struct Case {
@@ -244,6 +244,89 @@ fn check_d<const D: usize>(c: &Case, ctx: &mut Ctx) -> Result<(), Failure> {
                 Err(SutErr::Panic(m)) => fail!("sample-panic", "sampling panicked: {m}"),
                 Err(_) => ctx.label("perturb:sample-error"),
             }
+        }
+    }
+    // (8) value-level roles, with print_debug_info off and on (the dependency-tracking scalar cannot be used with the
+    // debug channel, which narrows by design): an exact-length point is accepted, trailing coordinates are ignored,
+    // and a changed coordinate leaves the groups it does not belong to bit-identical
+    for dbg in [false, true] {
+        let tag = if dbg { "debug-on" } else { "debug-off" };
+        let base = match sut::sample_f64(&s, &p.x[..dim], ed(), None, dbg, true) {
+            Ok(o) => o,
+            Err(SutErr::Panic(m)) => fail!("sample-panic", "a point with exactly get_dimension() = {dim} coordinates panicked with print_debug_info={dbg}: {m}; case {c:?}"),
+            Err(_) => {
+                ctx.label("roles:sample-error");
+                continue;
+            }
+        };
+        let Some(bm) = base.meta.as_ref() else { fail!("no-metadata", "no metadata") };
+        let mut xe = p.x[..dim].to_vec();
+        xe.extend_from_slice(&[0.321, 0.5, 0.875]);
+        match sut::sample_f64(&s, &xe, ed(), None, dbg, true) {
+            Ok(o) => {
+                if o.bits() != base.bits() {
+                    fail!("extra-coordinates-change-result", "appending coordinates beyond get_dimension() changed the result (print_debug_info={dbg}); case {c:?}");
+                }
+            }
+            Err(e) => fail!("extra-coordinates-error", "with 3 extra trailing coordinates the call failed (print_debug_info={dbg}): {e:?}"),
+        }
+        if sut::sample_f64(&s, &p.x[..dim - 1], ed(), None, dbg, true).is_ok() {
+            fail!("short-point-accepted", "a point with get_dimension()-1 = {} coordinates was accepted (print_debug_info={dbg})", dim - 1);
+        }
+        let bitsv = |v: &Vec<Vec<f64>>| v.iter().flatten().map(|x| x.to_bits()).collect::<Vec<_>>();
+        for &(i, nv) in &c.perturb {
+            if i >= dim || !(nv >= 0.0 && nv < 1.0) {
+                fail!("bad-case", "perturbation outside the point");
+            }
+            let mut x2 = p.x[..dim].to_vec();
+            x2[i] = nv;
+            let o2 = match sut::sample_f64(&s, &x2, ed(), None, dbg, true) {
+                Ok(o) => o,
+                Err(SutErr::Panic(m)) => fail!("sample-panic", "sampling panicked: {m}"),
+                Err(_) => {
+                    ctx.label("roles:sample-error");
+                    continue;
+                }
+            };
+            let Some(m2) = o2.meta.as_ref() else { fail!("no-metadata", "no metadata") };
+            let same_l = bitsv(&m2.l) == bitsv(&bm.l) && o2.u.to_bits() == base.u.to_bits() && o2.v.to_bits() == base.v.to_bits() && o2.jac.to_bits() == base.jac.to_bits();
+            let same_lambda = m2.lambda.to_bits() == bm.lambda.to_bits();
+            let (q1, q2) = (bitsv(&bm.q), bitsv(&m2.q));
+            if q1.len() != q2.len() || q1.len() != nl * D {
+                fail!("gaussian-count", "{} Gaussian components instead of D*L = {}; case {c:?}", q2.len(), nl * D);
+            }
+            if i < 2 * ne - 2 {
+                if !same_lambda || q1 != q2 {
+                    fail!("role-leak", "{tag}: changing sector coordinate {i} changed lambda or the Gaussian vectors; case {c:?}");
+                }
+            } else if i == 2 * ne - 2 {
+                if !same_l || q1 != q2 {
+                    fail!("role-leak", "{tag}: changing the gamma coordinate {i} changed l_matrix/u/v/jacobian or the Gaussian vectors; case {c:?}");
+                }
+                if same_lambda && bm.lambda.is_finite() {
+                    fail!("coordinate-without-influence", "{tag}: changing the gamma coordinate {i} from {} to {nv} left lambda = {} unchanged; case {c:?}", p.x[i], bm.lambda);
+                }
+            } else {
+                let pair = (i - (2 * ne - 1)) / 2;
+                if !same_l || !same_lambda {
+                    fail!("role-leak", "{tag}: changing Box-Muller coordinate {i} changed l_matrix/u/v/jacobian or lambda; case {c:?}");
+                }
+                let mut own_changed = false;
+                for n in 0..q1.len() {
+                    if n / 2 == pair {
+                        own_changed |= q1[n] != q2[n];
+                    } else if q1[n] != q2[n] {
+                        fail!("role-leak", "{tag}: changing Box-Muller coordinate {i} (pair {pair}) changed Gaussian component {n}; case {c:?}");
+                    }
+                }
+                let finite_pair = (0..q1.len()).filter(|n| n / 2 == pair).all(|n| f64::from_bits(q1[n]).is_finite() && f64::from_bits(q2[n]).is_finite());
+                // (b and 1-b share their cosine: the single component of an odd last pair may then legitimately stay)
+                let mirror = (i - (2 * ne - 1)) % 2 == 1 && (nv + p.x[i] - 1.0).abs() < 1e-6;
+                if !own_changed && finite_pair && 2 * pair < q1.len() && !mirror {
+                    fail!("coordinate-without-influence", "{tag}: changing Box-Muller coordinate {i} left its own Gaussian pair {pair} bit-identical; case {c:?}");
+                }
+            }
+            ctx.label(format!("roles:{tag}:checked"));
         }
     }
     finish(ctx, ne, nl, D)
